@@ -49,6 +49,8 @@ def base_spec(m: int) -> dict:
                                                                ("b", (0.5, 0, 0, 0.5, 0, 100 + d))]},
         "e": {"width": 540, "unicodes": [0x65], "contours": [B.box(0, 0, 50, 50 + d)],
               "components": [("a", (1, 0, 0, 1, 100, 0))]},
+        # a composite whose base is itself a mixed glyph (contours plus components)
+        "g": {"width": 550, "unicodes": [0x67], "components": [("e", (1, 0, 0, 1, 20 + d, 0))]},
         "acutecomb": {"width": 0, "unicodes": [0x301], "contours": [B.box(-30, 600, 30 + d, 700)],
                       "anchors": [("_top", 0, 600), ("top", 0, 710 + d)]},
         "f_i": {"width": 700, "contours": [B.box(0, 0, 300, 300 + d)],
@@ -114,20 +116,21 @@ def _opt(name, value, only=None):
 
 
 def _skip_arg(ctx):
-    ctx["opts"]["skipExportGlyphs"] = ["a", "acutecomb"]
+    # 'c' is a composite of 'a': a non-exported composite built from another non-exported glyph
+    ctx["opts"]["skipExportGlyphs"] = ["a", "c", "acutecomb"]
     return True
 
 
 def _skip_lib(ctx):
     for i, sp in enumerate(ctx["specs"]):
-        sp["lib"]["public.skipExportGlyphs"] = ["a"] if i == 0 else ["c"]
+        sp["lib"]["public.skipExportGlyphs"] = ["a", "c"] if i == 0 else ["c"]
     return True
 
 
 def _skip_dslib(ctx):
     if ctx["fn"] not in DSFUNCS:
         return False
-    ctx["dslib"]["public.skipExportGlyphs"] = ["c", "b"]
+    ctx["dslib"]["public.skipExportGlyphs"] = ["c", "b", "a"]
     return True
 
 
